@@ -180,6 +180,11 @@ def build_spectrum(s, nf, nd, dtype=np.float64):
     e = np.asarray(e * s["amp"], dtype=np.float64)
     e[~np.isfinite(e)] = 0.0
     e = np.maximum(e, 0.0)
+    # keep the dynamic range inside what float32 arithmetic can square without underflow:
+    # 13 decades below the maximum is set to exactly zero (the 'wide' kind spans 12 decades)
+    if e.size and e.max() > 0:
+        e[e < e.max() * 1e-13] = 0.0
+    e[e < 1e-15] = 0.0
     return np.ascontiguousarray(e.astype(dtype))
 
 
